@@ -69,6 +69,12 @@ func (e *sched) step(st *sState, in ssa.Instruction) {
 	case *ssa.Store:
 		addr := e.get(st, x.Addr)
 		v := e.get(st, x.Val)
+		if e.proto != nil {
+			// one byte of a symbolic string stored into a local buffer stays that byte
+			if pi, ok := v.(pInt); ok && pi.t.op == "byte" {
+				v = byteCell{src: pi.t.args[0], idx: pi.t.k}
+			}
+		}
 		if p, ok := addr.(sPtr); ok {
 			if arr, ok := st.heap[p.id].(*hArray); ok && p.idx >= 0 && p.idx < len(arr.elems) {
 				arr.elems[p.idx] = v
@@ -1884,7 +1890,14 @@ func (e *sched) protoCall(states []*sState, call *ssa.Call) ([]*sState, bool) {
 		for _, a := range argVals {
 			args = append(args, e.get(st, a))
 		}
-		handled, extra := d.call(st, call, name, args)
+		handled := false
+		var extra []*sState
+		if d.glue {
+			handled = d.glueCall(st, call, name, args)
+		}
+		if !handled {
+			handled, extra = d.call(st, call, name, args)
+		}
 		if !handled {
 			if cal != nil && isRepoFunc(cal) && len(cal.Blocks) > 0 && len(e.frames) > 0 && cal.Pkg == e.frames[0].Pkg {
 				return nil, false // a function of the package under analysis: follow it
